@@ -77,7 +77,9 @@ def ref_row(kind, param, X, s, e):
             ev = np.linalg.eigvalsh(c)
             tr = max(float(np.trace(c)), 1e-300)
             lam = float(ev.min())
-            isint = bool(np.all(Xs == np.round(Xs)) and np.abs(Xs).max() < 2**20)
+            # exactness must hold for every row that enters a prefix sum, not only for the
+            # slice: an implementation on prefix sums sees rounding from earlier rows
+            isint = bool(np.all(Xp == np.round(Xp)) and np.abs(Xp).max() < 2**20)
             const = bool(np.any(Xs.max(0) == Xs.min(0)))
             dup = any(np.array_equal(Xs[:, i], Xs[:, j]) for i in range(p) for j in range(i))
             if isint and const:
@@ -383,7 +385,7 @@ class Sim:
             self.stats["faults_fired"]["singular"] += 1
             ev["res"] = "exc:RuntimeError"
             ev["tag"] = "singular"
-            if not any(isinstance(r_, str) and r_ in ("raise", "either") for r_ in refs):
+            if not any(isinstance(r_, str) and r_ in ("raise", "either", "unjudged") for r_ in refs):
                 self.violate("unexpected_raise", "evaluate", i, {"error": str(ex)[:200], "cuts": cuts.tolist(), "param": json.dumps(self.param_spec)})
             return
         except Exception as ex:  # noqa: BLE001
